@@ -201,7 +201,7 @@ def gen_program(tape, feat):
         else:
             node["tock"] = tape.pick("tock", [0.0] + [y for y in ys if y])
             ew = feat["enter"]
-            names = [a for a in ("ok", "raise_", "ret", "kbint") if ew.get(a)]
+            names = [a for a in ("ok", "raise_", "ret", "kbint", "sysexit") if ew.get(a)]
             e = names[tape.weighted("enter", [ew[a] for a in names])].rstrip("_")
             node["enter"] = e
             if e == "ret":
@@ -225,6 +225,11 @@ def gen_program(tape, feat):
                             ctor_limit=tape.pick("ctor_limit", [None, 1000.0, 0.5]))
     if real and feat.get("kbint_sleep") and tape.flag("kbint_sleep", 1, 2):
         prog["kbint_sleep"] = tape.draw("kbint_sleep_ix", 6)
+    if feat.get("prior_run") and tape.flag("prior_run", 1, 4):
+        # history: the same doer objects already ran for a few cycles, under this scheduler or under another one with a
+        # different tyme, and were cut off by a limit; the measured run must not see anything of it
+        prog["prior"] = dict(same=tape.flag("prior_same_doist", 1, 2), tyme=tape.pick("prior_tyme", [50.0, 0.0, 3.25]),
+                             cycles=1 + tape.draw("prior_cycles", 4))
     if feat.get("allow_empty") and prog.get("args", {}).get("doers") and tape.flag("empty_doers", 1, 6):
         # do(doers=[]) on a scheduler that still holds the doers of an earlier use: the run is over the empty set
         prog["stale"] = prog["roots"]
@@ -245,7 +250,7 @@ def prog_readable(prog):
         return d
     return dict(doist=dict(tock=prog["T"], tyme=prog["t0"], limit=prog["limit"], real=prog["real"],
                            kbint_sleep=prog.get("kbint_sleep"), via_args=prog.get("args")),
-                roots=prog["roots"], spares=prog["spares"], stale=prog.get("stale", []),
+                roots=prog["roots"], spares=prog["spares"], stale=prog.get("stale", []), prior=prog.get("prior"),
                 nodes=[node(prog["nodes"][k]) for k in sorted(prog["nodes"])])
 
 
@@ -284,16 +289,19 @@ class Run:
         self.alive_at_end = None
         self.max_cycles = 400
         self.runaway = False
+        self.muted = False        # True during a prior run (history): nothing is recorded
 
     # -- trace
     def ev(self, *e):
+        if self.muted:
+            return
         if self.sealed:
             self.late_events += 1
             return
         self.trace.append(e)
 
     def fault(self, name):
-        if self.faults is not None:
+        if self.faults is not None and not self.muted:
             self.faults[name] += 1
 
     def sid(self, sched):
@@ -390,7 +398,7 @@ def _wake(run, nid, tyme):
         except _CaseTimeout:
             raise
         except BaseException as ex:
-            st.outcome = "kbint" if isinstance(ex, KeyboardInterrupt) else "raise"
+            st.outcome = "kbint" if isinstance(ex, (KeyboardInterrupt, SystemExit)) else "raise"
             run.ev("extend_raise", nid, run.sid(sched), type(ex).__name__)
             raise
         run.ev("extend_return", nid, run.sid(sched), run.ids_of(sched.doers))
@@ -442,6 +450,12 @@ def _on_enter(run, nid):
         run.fault("kbint_in_enter")
         run.ev("kbint", nid)
         raise KeyboardInterrupt()
+    if e == "sysexit":
+        # SystemExit: like KeyboardInterrupt not an Exception subclass, but Doist.do lets it propagate out of the run
+        st.outcome = "kbint"
+        run.fault("sysexit_in_enter")
+        run.ev("kbint", nid)
+        raise SystemExit("enter%d" % nid)
     if e == "ret":
         st.outcome = "ret"
         run.fault("return_in_enter")
@@ -554,7 +568,7 @@ def build(prog, res=None):
             except BaseException as ex:
                 if doers is None:
                     st = run.st[s._nid]
-                    st.exc_kind = "kbint" if isinstance(ex, KeyboardInterrupt) else "raise"
+                    st.exc_kind = "kbint" if isinstance(ex, (KeyboardInterrupt, SystemExit)) else "raise"
                 raise
 
         def recur(s, tyme, deeds=None):
@@ -565,7 +579,7 @@ def build(prog, res=None):
             except _CaseTimeout:
                 raise
             except BaseException as ex:
-                st.exc_kind = "kbint" if isinstance(ex, KeyboardInterrupt) else "raise"
+                st.exc_kind = "kbint" if isinstance(ex, (KeyboardInterrupt, SystemExit)) else "raise"
                 raise
             st.last_ret = r
             run.ev("recur_end", s._nid)
@@ -673,6 +687,29 @@ def execute(prog, res=None, mode="do", vloop_factory=None, noise=None):
     with clock_installed(clock):   # the Doist's MonoTimer reads the clock at construction
         run = build(prog, res)
     doist = run.doist
+    if prog.get("prior") and prog["roots"]:
+        pr = prog["prior"]
+        roots = [run.objs[r] for r in prog["roots"]]
+        run.muted = True
+        try:
+            with clock_installed(clock):
+                if pr["same"]:
+                    keep = (doist.tyme, doist.limit, list(doist.doers), run.cycles)
+                    doist.do(doers=roots, tyme=pr["tyme"], limit=pr["cycles"] * prog["T"])
+                    doist.tyme, doist.limit = keep[0], keep[1]
+                    doist.doers = keep[2]
+                    doist.done = None
+                else:
+                    doing.Doist(tock=prog["T"], tyme=pr["tyme"], real=False, limit=pr["cycles"] * prog["T"]).do(doers=roots)
+        finally:
+            run.muted = False
+        run.cycles = 0
+        for st in run.st.values():
+            st.k = 0
+            st.entered = st.exited = 0
+            st.outcome = st.last_ret = st.exc_kind = None
+        if res is not None:
+            res.faults["prior_run_cut_off_by_limit"] += 1
     if prog.get("kbint_sleep") is not None:
         target = prog["kbint_sleep"]
 
